@@ -290,6 +290,103 @@ impl<'a> syn::visit_mut::VisitMut for IdentRenamer<'a> {
     }
 }
 
+/// Names of all `const` items of a file (file level, impl level, function level).
+pub fn const_names(file: &syn::File) -> Vec<String> {
+    struct C(Vec<String>);
+    impl<'ast> Visit<'ast> for C {
+        fn visit_item_const(&mut self, i: &'ast syn::ItemConst) {
+            self.0.push(i.ident.to_string());
+        }
+        fn visit_impl_item_const(&mut self, i: &'ast syn::ImplItemConst) {
+            self.0.push(i.ident.to_string());
+        }
+        fn visit_trait_item_const(&mut self, i: &'ast syn::TraitItemConst) {
+            self.0.push(i.ident.to_string());
+        }
+    }
+    let mut c = C(vec![]);
+    c.visit_file(file);
+    c.0
+}
+
+/// A private file-level constant that the reviewed tree does not have (refdata/consts.json) and whose value is a
+/// literal is read as that literal at its uses: naming a repeated literal is not a change.
+fn inline_new_literal_consts(rel: &str, file: &mut syn::File) {
+    let Some(verif) = std::env::var_os("VERIF_DIR") else { return };
+    let Ok(txt) = std::fs::read_to_string(std::path::Path::new(&verif).join("refdata/consts.json")) else { return };
+    let Ok(v) = serde_json::from_str::<serde_json::Value>(&txt) else { return };
+    let reviewed: std::collections::BTreeSet<String> = match v.get(rel).and_then(|x| x.as_array()) {
+        Some(a) => a.iter().filter_map(|x| x.as_str().map(|s| s.to_string())).collect(),
+        None => return,
+    };
+    let mut map: std::collections::BTreeMap<String, proc_macro2::TokenStream> = Default::default();
+    for it in &file.items {
+        if let syn::Item::Const(c) = it {
+            let name = c.ident.to_string();
+            if reviewed.contains(&name) || !matches!(c.vis, syn::Visibility::Inherited) || !c.attrs.is_empty() {
+                continue;
+            }
+            let lit = match &*c.expr {
+                syn::Expr::Lit(_) => true,
+                syn::Expr::Unary(u) => matches!(u.op, syn::UnOp::Neg(_)) && matches!(&*u.expr, syn::Expr::Lit(_)),
+                _ => false,
+            };
+            if lit {
+                map.insert(name, c.expr.to_token_stream());
+            }
+        }
+    }
+    if map.is_empty() {
+        return;
+    }
+    fn go(ts: proc_macro2::TokenStream, map: &std::collections::BTreeMap<String, proc_macro2::TokenStream>) -> proc_macro2::TokenStream {
+        let mut out = proc_macro2::TokenStream::new();
+        let mut prev_sep = false; // previous token was `.` or `::`
+        let mut colons = 0;
+        for tt in ts {
+            match tt {
+                proc_macro2::TokenTree::Ident(ref i) if !prev_sep && map.contains_key(&i.to_string()) => {
+                    out.extend(map[&i.to_string()].clone());
+                    colons = 0;
+                }
+                proc_macro2::TokenTree::Group(g) => {
+                    let mut ng = proc_macro2::Group::new(g.delimiter(), go(g.stream(), map));
+                    ng.set_span(g.span());
+                    out.extend(std::iter::once(proc_macro2::TokenTree::Group(ng)));
+                    prev_sep = false;
+                    colons = 0;
+                }
+                other => {
+                    match &other {
+                        proc_macro2::TokenTree::Punct(p) if p.as_char() == '.' => {
+                            prev_sep = true;
+                            colons = 0;
+                        }
+                        proc_macro2::TokenTree::Punct(p) if p.as_char() == ':' => {
+                            colons += 1;
+                            prev_sep = colons >= 2;
+                        }
+                        _ => {
+                            prev_sep = false;
+                            colons = 0;
+                        }
+                    }
+                    out.extend(std::iter::once(other));
+                    continue;
+                }
+            }
+            prev_sep = false;
+        }
+        out
+    }
+    let names: Vec<String> = map.keys().cloned().collect();
+    file.items.retain(|it| !matches!(it, syn::Item::Const(c) if names.contains(&c.ident.to_string())));
+    let ts = go(file.to_token_stream(), &map);
+    if let Ok(nf) = syn::parse2::<syn::File>(ts) {
+        *file = nf;
+    }
+}
+
 /// names of the private functions of `rel` in the reviewed tree (refdata/private_fns.json); None if not listed
 fn reviewed_private_fn_names(rel: &str) -> Option<std::collections::BTreeSet<String>> {
     let verif = std::env::var_os("VERIF_DIR")?;
@@ -305,6 +402,7 @@ pub fn load(repo: &Path, rel: &str) -> Result<Src, String> {
     let mut file = syn::parse_file(&text).map_err(|e| format!("{}: parse error: {}", rel, e))?;
     strip_tests(&mut file.items);
     strip_docs(&mut file);
+    inline_new_literal_consts(rel, &mut file);
     undo_private_renames(rel, &mut file);
     undo_param_renames(rel, &mut file);
     if std::env::var("VERIF_NO_NORMALIZE").is_err() {
